@@ -54,7 +54,7 @@ let () =
            | (_, eas) :: _ -> eas := (if ios nrep = 0 then None else Some (List.map repair_of rs)) :: !eas
            | [] -> ())
       | _ -> ()) secs;
-    let magic = nat_of_int 7777777 in
+    let magic = nat_of_int 77 in
     List.iter (fun (ws, eas) ->
       let lexemes = triples ws in
       let oracle = List.rev !eas in
